@@ -240,6 +240,7 @@ func checkCloneKinds(p *Prog, r *Result, rule string) {
 		return
 	}
 	deep := map[string]bool{}
+	conditional := map[string]bool{}
 	for _, b := range cv.Blocks {
 		ifi, ok := b.Instrs[len(b.Instrs)-1].(*ssa.If)
 		if !ok {
@@ -273,6 +274,33 @@ func checkCloneKinds(p *Prog, r *Result, rule string) {
 		}
 		if recurses {
 			deep[reflectKinds[k]] = true
+			// the recursion must not depend on a further kind test inside the arm (a fast path for "simple" element kinds
+			// leaves aggregates of references shallow)
+			for _, ab := range cv.Blocks {
+				if ab != arm && !arm.Dominates(ab) {
+					continue
+				}
+				for _, in := range ab.Instrs {
+					call, ok := in.(*ssa.Call)
+					if !ok || call.Call.StaticCallee() != cv {
+						continue
+					}
+					for d := ab; d != nil && d != arm.Idom(); d = d.Idom() {
+						if d == ab {
+							continue
+						}
+						if ifi, ok := d.Instrs[len(d.Instrs)-1].(*ssa.If); ok && (arm == d || arm.Dominates(d)) {
+							if bo, ok := ifi.Cond.(*ssa.BinOp); ok {
+								for _, side := range []ssa.Value{bo.X, bo.Y} {
+									if cst, ok := side.(*ssa.Const); ok && isNamedFrom(cst.Type(), "reflect", "Kind") {
+										conditional[reflectKinds[k]] = true
+									}
+								}
+							}
+						}
+					}
+				}
+			}
 		}
 	}
 	var have []string
@@ -281,7 +309,9 @@ func checkCloneKinds(p *Prog, r *Result, rule string) {
 	}
 	sort.Strings(have)
 	for _, k := range []string{"Ptr", "Slice", "Map", "Struct", "Array"} {
-		if deep[k] {
+		if deep[k] && conditional[k] {
+			r.Report(rule, FuncName(cv), "deep arm for "+k, Violated, "the "+k+" arm of the deep clone recurses only for some element kinds (a kind test guards the recursion): elements of the other kinds (e.g. structs or arrays holding slices, maps, pointers) are copied shallowly and stay shared", p.Pos(cv.Pos()), nil, true)
+		} else if deep[k] {
 			r.Report(rule, FuncName(cv), "deep arm for "+k, Discharged, "", p.Pos(cv.Pos()), nil, true)
 		} else {
 			r.Report(rule, FuncName(cv), "deep arm for "+k, Violated, "the deep clone has no recursing arm for reflect."+k+" (arms: "+strings.Join(have, ", ")+"): values of that kind are copied shallowly, so pointers inside them stay shared between the caller and the cache", p.Pos(cv.Pos()), nil, true)
